@@ -306,16 +306,12 @@ func (blockchain *Blockchain) isApplicationHalted(height uint64) bool {
 		}
 	}
 
-	votingResult := new(big.Float).Quo(
-		new(big.Float).SetInt(totalVotedPower),
-		new(big.Float).SetInt(blockchain.totalPower),
-	)
+	return isMoreThanTwoThirds(totalVotedPower, blockchain.totalPower)
+}
 
-	if votingResult.Cmp(big.NewFloat(votingPowerConsensus)) == 1 {
-		return true
-	}
-
-	return false
+// isMoreThanTwoThirds reports whether votedPower is strictly more than 2/3 of totalPower
+func isMoreThanTwoThirds(votedPower, totalPower *big.Int) bool {
+	return new(big.Int).Mul(votedPower, big.NewInt(3)).Cmp(new(big.Int).Mul(totalPower, big.NewInt(2))) == 1
 }
 
 // Deprecated
@@ -357,7 +353,7 @@ func (blockchain *Blockchain) isUpdateCommissionsBlockV2(height uint64) []byte {
 		return nil
 	}
 	// calculate total power of validators
-	maxVotingResult := big.NewFloat(0)
+	maxVotedPower := big.NewInt(0)
 
 	var price string
 	for _, commission := range commissions {
@@ -367,17 +363,12 @@ func (blockchain *Blockchain) isUpdateCommissionsBlockV2(height uint64) []byte {
 				totalVotedPower.Add(totalVotedPower, power)
 			}
 		}
-		votingResult := new(big.Float).Quo(
-			new(big.Float).SetInt(totalVotedPower),
-			new(big.Float).SetInt(blockchain.totalPower),
-		)
-
-		if maxVotingResult.Cmp(votingResult) == -1 {
-			maxVotingResult = votingResult
+		if maxVotedPower.Cmp(totalVotedPower) == -1 {
+			maxVotedPower = totalVotedPower
 			price = commission.Price
 		}
 	}
-	if maxVotingResult.Cmp(big.NewFloat(votingPowerConsensus)) == 1 {
+	if isMoreThanTwoThirds(maxVotedPower, blockchain.totalPower) {
 		return []byte(price)
 	}
 
@@ -390,7 +381,7 @@ func (blockchain *Blockchain) isUpdateNetworkBlockV2(height uint64) (string, boo
 		return "", false
 	}
 	// calculate total power of validators
-	maxVotingResult := big.NewFloat(0)
+	maxVotedPower := big.NewInt(0)
 	var version string
 	for _, v := range versions {
 		totalVotedPower := big.NewInt(0)
@@ -399,17 +390,12 @@ func (blockchain *Blockchain) isUpdateNetworkBlockV2(height uint64) (string, boo
 				totalVotedPower.Add(totalVotedPower, power)
 			}
 		}
-		votingResult := new(big.Float).Quo(
-			new(big.Float).SetInt(totalVotedPower),
-			new(big.Float).SetInt(blockchain.totalPower),
-		)
-
-		if maxVotingResult.Cmp(votingResult) == -1 {
-			maxVotingResult = votingResult
+		if maxVotedPower.Cmp(totalVotedPower) == -1 {
+			maxVotedPower = totalVotedPower
 			version = v.Version
 		}
 	}
-	if maxVotingResult.Cmp(big.NewFloat(votingPowerConsensus)) == 1 {
+	if isMoreThanTwoThirds(maxVotedPower, blockchain.totalPower) {
 		return version, true
 	}
 
